@@ -738,16 +738,22 @@ end DiskLemmas
 /-! ## 5–7. keys and cached execution — vocabulary -/
 section ExecSpec
 
-/-- the cache stores, under the key of `(nd, inputs)`, exactly what executing `nd` on `inputs` yields -/
+/-- the cache stores, under the key of `(nd, inputs)` — identity and *parameter-level* inputs
+`toParams nd inputs` — exactly what executing `nd` on `inputs` yields -/
 def CacheSound (env : KeyEnv) (exec : NodeD → AL Val → NodeOut) (cache : Lru (AL Val)) : Prop :=
   ∀ nd inputs entry, nd.cache = true → AL.get? cache.data (keyOf env nd inputs) = some entry →
     ∃ outs dec, outcome (exec nd inputs) = some (outs, dec) ∧ entry = toCache nd outs dec
 
 /-- the executor's result is a function of what the key is computed from: nodes with the same
-definition hash, class, output names and targets behave alike on the same inputs (whatever the order
-of the inputs dict). This is the contract of `definition_hash`. -/
+definition hash, class, output names and targets behave alike when the underlying function receives
+the same arguments, i.e. on the same *parameter-level* inputs `toParams nd i` (whatever the order of
+the inputs dict, and whatever current names the arguments travel under). This is the contract of
+`definition_hash`: it identifies the function, and the function only ever sees its own parameter
+names. (Stated over the inputs under their *current* names the contract would be false of any function
+that is not symmetric in its arguments: `f` and `f.with_inputs(x='y', y='x')` share a definition hash
+and differ on `{x: 5, y: 2}` — see `HG.C09.rename_collision_witness`.) -/
 def ExecRespectsKey (env : KeyEnv) (exec : NodeD → AL Val → NodeOut) : Prop :=
-  ∀ nd nd' i i', cacheKey (identOf env nd) i = cacheKey (identOf env nd') i' →
+  ∀ nd nd' i i', cacheKey (identOf env nd) (toParams nd i) = cacheKey (identOf env nd') (toParams nd' i') →
     outcome (exec nd i) = outcome (exec nd' i')
 
 /-- only gate executors assign a routing decision -/
@@ -925,10 +931,10 @@ def envEx : KeyEnv :=
 def execEx (d : Dec) : NodeD → AL Val → NodeOut := fun nd _ =>
   if nd.isGate then { res := .ok [], dec := some d } else { res := .ok [] }
 
-theorem envEx_inj : ∀ K', envEx.hash K' = envEx.hash (cacheKey (identOf envEx gateEx) []) →
-    K' = cacheKey (identOf envEx gateEx) [] := by
+theorem envEx_inj : ∀ K', envEx.hash K' = envEx.hash (cacheKey (identOf envEx gateEx) (toParams gateEx [])) →
+    K' = cacheKey (identOf envEx gateEx) (toParams gateEx []) := by
   intro K' h
-  have h0 : envEx.hash (cacheKey (identOf envEx gateEx) []) = "0" := by decide
+  have h0 : envEx.hash (cacheKey (identOf envEx gateEx) (toParams gateEx [])) = "0" := by decide
   rw [h0] at h
   simp only [envEx] at h
   split at h
@@ -949,6 +955,93 @@ theorem execEx_noKey (d : Dec) : NoInternalKey (execEx d) := by
     simp only [execEx] at h
     split at h <;> (injection h with h; exact h.symm)
   subst this; rfl
+
+/-! ### renamed nodes: `f` and `f.with_inputs(x='y', y='x')` -/
+
+/-- a cacheable function node `f(x, y)` producing `r` -/
+def fEx : NodeD :=
+  { (default : NodeD) with name := "f", kind := .fn, inputs := ["x", "y"], dataOuts := ["r"], cache := true }
+
+/-- `f.with_inputs(x='y', y='x')`: same function, same outputs and targets; the value arriving under the
+current name `x` is the function's parameter `y` and vice versa -/
+def gEx : NodeD := { fEx with name := "f_swapped", origIn := [("x", "y"), ("y", "x")] }
+
+/-- `{x: 5, y: 2}` -/
+def insEx : AL Val := [("x", .int 5), ("y", .int 2)]
+
+/-- the identity shared by `fEx` and `gEx` when both report the definition hash `"h"` -/
+def identSw : Ident := { defHash := "h", cls := "FunctionNode", outputs := ["r"], targets := [] }
+
+/-- a key environment in which every node reports the definition hash `"h"` (as `fEx` and `gEx` do in
+the library: renaming does not change `definition_hash`), injective at the two keys `f(x=5, y=2)` and
+`f(x=2, y=5)` -/
+def envSw : KeyEnv :=
+  { defHash := fun _ => "h"
+    hash := fun K =>
+      if K = (identSw, ([("x", .int 5), ("y", .int 2)] : AL Val)) then "k52"
+      else if K = (identSw, ([("x", .int 2), ("y", .int 5)] : AL Val)) then "k25"
+      else "other" }
+
+/-- an executor that is not symmetric in its arguments: every node outputs, under `r`, the value its
+function receives for the *parameter* `x` (so `f(5, 2) ↦ 5`, `f(2, 5) ↦ 2`) -/
+def execFst : NodeD → AL Val → NodeOut := fun nd i =>
+  { res := .ok [("r", (AL.get? (sortInputs (toParams nd i)) "x").getD Val.none)] }
+
+theorem execFst_respects (env : KeyEnv) : ExecRespectsKey env execFst := by
+  intro nd nd' i i' h
+  have h2 : sortInputs (toParams nd i) = sortInputs (toParams nd' i') := congrArg Prod.snd h
+  simp [execFst, h2]
+
+theorem execFst_gateOnly : GateOnlyDec execFst := by
+  intro nd inputs _; rfl
+
+theorem execFst_noKey : NoInternalKey execFst := by
+  intro nd inputs outs h
+  have : outs = [("r", (AL.get? (sortInputs (toParams nd inputs)) "x").getD Val.none)] := by
+    simp only [execFst] at h
+    injection h with h; exact h.symm
+  subst this
+  have : ¬ routingKey = "r" := by decide
+  simp [AL.has, AL.get?, this]
+
+theorem envSw_hash_k52 {K : Key} (h : envSw.hash K = "k52") :
+    K = (identSw, ([("x", .int 5), ("y", .int 2)] : AL Val)) := by
+  simp only [envSw] at h
+  split at h
+  · assumption
+  · split at h <;> exact absurd h (by decide)
+
+theorem envSw_hash_k25 {K : Key} (h : envSw.hash K = "k25") :
+    K = (identSw, ([("x", .int 2), ("y", .int 5)] : AL Val)) := by
+  simp only [envSw] at h
+  split at h
+  · exact absurd h (by decide)
+  · split at h
+    · assumption
+    · exact absurd h (by decide)
+
+/-- `envSw` is injective at the key of the swapped node on `{x: 5, y: 2}` (which is `f(x=2, y=5)`) -/
+theorem envSw_inj_g : ∀ K', envSw.hash K' = envSw.hash (cacheKey (identOf envSw gEx) (toParams gEx insEx)) →
+    K' = cacheKey (identOf envSw gEx) (toParams gEx insEx) := by
+  intro K' h
+  have h0 : envSw.hash (cacheKey (identOf envSw gEx) (toParams gEx insEx)) = "k25" := by decide
+  rw [h0] at h
+  rw [envSw_hash_k25 h]; decide
+
+/-- the cache left behind by executing `fEx` on `{x: 5, y: 2}` is sound -/
+theorem envSw_sound :
+    CacheSound envSw execFst { maxSize := none, data := [("k52", [("r", .int 5)])] } := by
+  intro nd inputs entry _ hg
+  simp only [AL.get?] at hg
+  split at hg
+  · rename_i hk
+    have hK := envSw_hash_k52 (K := cacheKey (identOf envSw nd) (toParams nd inputs)) hk
+    have h2 : sortInputs (toParams nd inputs) = [("x", .int 5), ("y", .int 2)] := congrArg Prod.snd hK
+    have he : entry = [("r", .int 5)] := (Option.some.inj hg).symm
+    subst he
+    refine ⟨[("r", .int 5)], none, by simp [execFst, h2, outcome, AL.get?], ?_⟩
+    cases hgate : nd.isGate <;> simp [toCache, hgate]
+  · cases hg
 
 end Fixtures
 
